@@ -136,7 +136,7 @@ example : Reachable exDiamond exRun :=
 -- the run ends normally with five tasks, all started once, and task 3 saw both results
 example : exRun.stopped = true ∧ exRun.errs = false ∧ exRun.cancelled = false ∧ exRun.n = 5 := by decide
 example : (exRun.tasks 3).startDeps = [1, 2] ∧ (exRun.tasks 3).startSeen = [1, 2, 0] ∧
-    (exRun.tasks 3).startAt = some 7 ∧ (exRun.tasks 1).endAt = some 6 := by decide
+    (exRun.tasks 3).startAt = some 6 ∧ (exRun.tasks 1).endAt = some 5 ∧ (exRun.tasks 2).endAt = some 4 := by decide
 example : exRun.inst = [4, 3, 1, 2, 0] := by decide
 
 -- a failing run: task 1 fails while 2 is running; 3 (depends on 1 and 2) is never started
